@@ -104,3 +104,10 @@ MUTANTS += [
     dict(property='C10', name='T transition adds magnitude but removes 1 (vMat)', file=BASEF, old="                    self._vMat[origin_index, event_index] -= magnitude\n                    self._vMat[destination_index, event_index] += magnitude", new="                    self._vMat[origin_index, event_index] -= 1\n                    self._vMat[destination_index, event_index] += magnitude"),
     dict(property='C10', name='tauLeap applies a drift although there are no explicit terms (uses rates)', file=S, old="new_x = new_x + determ_changes*tau_scale", new="new_x = new_x + determ_changes*tau_scale + 0*new_x + tau_scale"),
 ]
+MUTANTS += [
+    dict(property='C09', name='pairs: value stored under the positional symbol, not the named one', file=BASEF, old="                            index_temp = f(parameters[i][0])", new="                            index_temp = f(str(self._paramList[i]))"),
+    dict(property='C09', name='dict: partial update starts from an empty holder (forgets earlier values)', file=BASEF, old="                if hasattr(self, \"_parameters\"):\n                    param_out = self._parameters", new="                if False:\n                    param_out = self._parameters"),
+    dict(property='C09', name='final unrolling: first binding of a parameter wins', file=BASEF, old="            index = self.get_param_index(key)\n            self._paramValue[index] = val", new="            index = self.get_param_index(key)\n            if self._paramValue[index] == 0:\n                self._paramValue[index] = val"),
+    dict(property='C09', name='unknown pair name silently skipped', file=BASEF, old="        if input_str in self._paramDict:\n            return self._paramDict[input_str]\n        else:\n            raise InputError(\"Input parameter: %s does not exist\" % input_str)", new="        if input_str in self._paramDict:\n            return self._paramDict[input_str]\n        else:\n            return self._paramDict[self._paramList[0].ID]"),
+    dict(property='C16', name='frozen distribution drawn with a private RandomState', file=BASEF, old="param_out[f(inParam)] = value.rvs(1)[0]", new="param_out[f(inParam)] = value.rvs(1, random_state=np.random.RandomState())[0]"),
+]
